@@ -32,7 +32,7 @@ def run(prop, tier):
         # 2^32 + 16 consecutive failing trylock calls on a held spinlock, real threads, optimised build: a lock word that counts attempts would wrap to "free"
         import build
         xs = dict((a, build.build_exe("count_wrap", "fast", ["harness/count_wrap.c"], atomic=a)) for a in ("c11", "sync", "sim"))
-        common.parallel(lambda a: common.run_harness(xs[a], [32, 16], acc, "count_wrap[%s] 2^32+16 failed trylock calls" % a, timeout=3000, crash_prop=prop), list(xs))
+        common.parallel(lambda a: common.run_harness(xs[a], [32, 16], acc, "count_wrap[%s] 2^32+16 failed trylock calls" % a, timeout=3000, crash_prop=prop, stall=0), list(xs))
     extra = {}
     if tier == "thorough" and not acc.viols and not acc.engine_errors:
         extra = mcsched.conformance(acc, [j for j in jobs if j["args"][0] not in ("values", "barrier")])
